@@ -316,15 +316,31 @@ def reorder(spec, state_order=None, choice_order=None, function_order=None):
 
 def twin(spec):
     """A model with exactly the same names, signatures, grids and parameter structure but
-    different table contents (float tables shifted, int/bool tables rotated) and parameter
-    values: used to detect state leaking between models (caches keyed on names)."""
+    different table contents (float tables rescaled, boolean restriction tables made more
+    permissive, integer transition tables kept) and parameter values: used to detect state leaking between models (caches keyed on names)."""
     new = spec.copy()
     for k, a in spec.consts.items():
         a = np.asarray(a)
         if a.dtype.kind == "f":
             new.consts[k] = a * 0.5 + 0.37
-        else:
-            new.consts[k] = np.roll(a.reshape(-1), 1).reshape(a.shape)
+        elif a.dtype.kind == "b":
+            # more permissive restriction tables: every combination that passes in the original
+            # still passes, so the twin stays solvable and simulable whenever the original is
+            new.consts[k] = a | np.roll(a.reshape(-1), 1).reshape(a.shape)
+        # integer tables (discrete transitions) are kept: the twin must stay inside its space
+    # filters given as one table: use (roughly) the COMPLEMENT, keeping the all-zero choice
+    # combination admissible for every state, so that the twin's admissible sets differ
+    # materially from the original's while the twin can still be solved and simulated
+    for fname in spec.filters():
+        f = spec.functions[fname]
+        m = re.fullmatch(r"(TAB\d+)\[(.*)\]", f["body"].strip())
+        if m and m.group(1) in spec.consts and np.asarray(spec.consts[m.group(1)]).dtype.kind == "b":
+            a = np.asarray(spec.consts[m.group(1)])
+            if a.ndim == len(f["args"]):
+                comp = ~a
+                idx = tuple(0 if arg in spec.choices else slice(None) for arg in f["args"])
+                comp[idx] = True
+                new.consts[m.group(1)] = comp
     for k, d in spec.params.items():
         if isinstance(d, dict) and k != "shocks":
             new.params[k] = {kk: float(v) * 1.7 + 0.11 for kk, v in d.items()}
